@@ -56,7 +56,7 @@ def check(prog, rep, tier):
         if okb and nsites:
             rep.ok("C15.bounded-append", f"{ctx}: bucket-level appends guarded")
         elif okb:
-            raise AnalysisError(f"anchor vanished: no bucket-level append found in {ctx}")
+            rep.bad("C15.bounded-append", ctx, "no bucket-level append", f"no method of {ctx} appends an entry to a bucket under the capacity guard any more", prog.cls(ctx).module.relpath + ":1")
         # ------------------------------------------------------------ candidates
         f, flows = insert_flows(prog, ctx)
         okc = True
